@@ -105,6 +105,10 @@ pub fn check(q: &Query, text: &str, doc: &J, obs: &mut Obs) -> Res {
             if done.contains(&p.as_str()) {
                 continue;
             }
+            // bounded work per case: the first 60 distinct paths are queried back
+            if done.len() >= 60 {
+                break;
+            }
             done.push(p.as_str());
             round_trip(&v, &map, doc, l, p, obs, &case)?;
         }
